@@ -52,6 +52,7 @@ The full data structure is
 """
 
 import random
+import sys
 from pprint import pprint
 
 import numpy as np
@@ -404,6 +405,18 @@ def _data_split(dat, batch_size, axis=0):
 def data_generator(data, fun=_data_split, args=(), kwargs=None, MAX_ITER=1000):
     """Data generator: call ``fun`` to each ``data`` as a generator. The extra arguments will be passed to ``fun``."""
     kwargs = kwargs if kwargs is not None else {}
+
+    def _has_array(dat):
+        if isinstance(dat, dict):
+            return any(_has_array(v) for v in dat.values())
+        if isinstance(dat, (list, tuple)):
+            return any(_has_array(v) for v in dat)
+        return True
+
+    # empty containers follow the arrays they are zipped with; only a
+    # structure without any array needs a bound on the number of pieces
+    if _has_array(data):
+        MAX_ITER = sys.maxsize
 
     def _gen(dat):
         if isinstance(dat, dict):
